@@ -98,8 +98,8 @@ class Output(BaseOutput):
         self.num_records = int(
             -(-(timer.stop_time - timer.start_time) // self.output_period)
         )
-        # if not skip_initial:  # Add an initial record
-        #     self.num_records += 1
+        if skip_initial:  # The record at the start time is not written by this run
+            self.num_records -= 1
         logger.info("  Number of records: %s", self.num_records)
 
         if self.numrec:
@@ -136,7 +136,7 @@ class Output(BaseOutput):
 
     def update(self) -> None:
         step = self.modules["time"].step
-        if step % self.output_period_step == 0:
+        if step % self.output_period_step == 0 and not (self.skip_initial and step == 0):
             logger.info("writing, time = %s", self.modules["time"].time)
             self.write(self.modules["state"])
 
@@ -223,12 +223,6 @@ class Output(BaseOutput):
           state: Model state
 
         """
-
-        # May skip initial output
-        self.skip_initial = False
-        if self.skip_initial:
-            self.skip_initial = False
-            return
 
         if self.layout == "sparse":
             state.compactify()
